@@ -138,11 +138,16 @@ def nodeFinish (lastUseA : Bool) (lastVal : Option Int) (s : Node α β) : Node 
   | some v => if s.useA != lastUseA then nodeAdjust oa ob v s else s
   | none => s
 
-/-- the body of `Next` after `lastFloatVal()` has been read -/
-def nodeStep (s : Node α β) : Node α β × Bool :=
-  let ra := if s.aval then oa.seek (s.lastT + 1 + s.penA) s.a else (s.a, false)
-  let rb := if s.bval then ob.seek (s.lastT + 1 + s.penB) s.b else (s.b, false)
-  let s1 : Node α β := { s with a := ra.1, b := rb.1, aval := ra.2, bval := rb.2 }
+/-- `if it.aval != ValNone { it.aval = it.a.Seek(it.lastT + 1 + it.penA) }` -/
+def stepA (s : Node α β) : α × Bool :=
+  if s.aval then oa.seek (s.lastT + 1 + s.penA) s.a else (s.a, false)
+
+/-- `if it.bval != ValNone { it.bval = it.b.Seek(it.lastT + 1 + it.penB) }` -/
+def stepB (s : Node α β) : β × Bool :=
+  if s.bval then ob.seek (s.lastT + 1 + s.penB) s.b else (s.b, false)
+
+/-- the rest of `Next` once both sides have been advanced: pick the side to emit -/
+def nodeChoose (s1 : Node α β) : Node α β × Bool :=
   if !s1.aval then
     if s1.bval then
       match ob.atT s1.b with
@@ -165,6 +170,11 @@ def nodeStep (s : Node α β) : Node α β × Bool :=
                    penA := if s1.lastT ≠ minT then 2 * (tb - s1.lastT) else initialPenalty,
                    penB := 0, lastT := tb, lastIsA := false }, true)
     | _, _ => ({ s1 with bad := true }, false)
+
+/-- the body of `Next` after `lastFloatVal()` has been read -/
+def nodeStep (s : Node α β) : Node α β × Bool :=
+  nodeChoose oa ob { s with a := (stepA oa s).1, b := (stepB ob s).1,
+                            aval := (stepA oa s).2, bval := (stepB ob s).2 }
 
 /-- `dedupSeriesIterator.Next` -/
 def nodeNext (s : Node α β) : Node α β × Bool :=
